@@ -246,7 +246,9 @@ Definition m18_init : m18 := M18 0 false false 0 1.
    802 a forged accept message did not fail the connection with the right error
    803 data reached the handlers / the pending requests / the message id before the connection was accepted
    804 the handshake was marked complete although neither ready was declared on this connection nor
-       (control connections) the server was accepted *)
+       (control connections) the server was accepted
+   805 Ready reported success although no ready message with the declared next message id was written
+       to the connection *)
 Definition step18 (full : bool) (s : m18) (o : op) (ob : obs) : Z * m18 :=
   match o, ob with
   | OSession, _ => (0, M18 (h_sess s + 1) false false (h_q s) (h_next s))
@@ -258,8 +260,11 @@ Definition step18 (full : bool) (s : m18) (o : op) (ob : obs) : Z * m18 :=
       if negb g && negb (qlen =? h_q s) then (803, s) else
       if negb (Bool.eqb (negb (hs =? 0)) (h_ready s || (negb full && acc'))) then (804, s) else
       (0, M18 (h_sess s) acc' (h_ready s) qlen (h_next s))
-  | OReady _, [err; next; hs; _] =>
-      if err =? 0 then (0, M18 (h_sess s) (h_acc s) true (h_q s) next) else (0, s)
+  | OReady n, [err; next; hs; w] =>
+      if err =? 0 then
+        if negb (w =? (if n =? 0 then 1 else n)) then (805, s) else
+        (0, M18 (h_sess s) (h_acc s) true (h_q s) next)
+      else (0, s)
   | OMsg m, e :: next :: qlen :: nd :: _ =>
       if negb (h_acc s) then
         ((if (qlen =? h_q s) && (next =? h_next s) && (nd =? 0) then 0 else 803), s)
